@@ -80,8 +80,8 @@ Definition outcome_eqb (a b : outcome) : bool :=
 
 Definition show_nats (ks : list nat) : string := "[" ++ sep ";" (map nat_str ks) ++ "]".
 
-Definition describe (proc lbl : string) (self : value) (st : gstate) (ks : list nat) (og ot : outcome) : string :=
-  "#@#MISMATCH process=" ++ proc ++ " #@#label=" ++ lbl ++ " #@#self=" ++ show_value self ++ " #@#choices=" ++ show_nats ks ++
+Definition describe (att : nat) (proc lbl : string) (self : value) (st : gstate) (ks : list nat) (og ot : outcome) : string :=
+  "#@#MISMATCH attempt=" ++ nat_str att ++ " #@#process=" ++ proc ++ " #@#label=" ++ lbl ++ " #@#self=" ++ show_value self ++ " #@#choices=" ++ show_nats ks ++
   " #@#state=" ++ show_vstore st ++ " #@#go=" ++ show_outcome og ++ " #@#tla=" ++ show_outcome ot ++ " #@#END".
 
 Fixpoint take {A} (n : nat) (xs : list A) : list A * list A :=
@@ -112,7 +112,7 @@ Definition focus_candidates (W : wsys) (st : gstate) (focus : list string)
    labels whose step committed in order). Every other attempt goes to a process standing at a focus label
    (the labels whose obligation broke), when there is one. *)
 Fixpoint walk (n : nat) (W : wsys) (focus : list string) (st : gstate) (rnd : list nat) (trace : list string)
-         (bad : list (string * string)) : list (string * string) * list string :=
+         (bad : list (string * string)) {struct n} : list (string * string) * list string :=
   match n with
   | O => (rev bad, rev trace)
   | S n' =>
@@ -144,13 +144,14 @@ Fixpoint walk (n : nat) (W : wsys) (focus : list string) (st : gstate) (rnd : li
                   let og := run (w_dgo W) EVAL_FUEL gt r ks in
                   let ot := run (w_dtla W) EVAL_FUEL tt0 r ks in
                   let key := proc ++ "." ++ lbl in
+                  let ent := key ++ "/" ++ show_value self ++ "/" ++ sep "." (map nat_str ks) in
                   let bad' := if outcome_eqb og ot then bad
                               else match lookup key bad with
                                    | Some _ => bad
-                                   | None => (key, describe proc lbl self st ks og ot) :: bad end in
+                                   | None => (key, describe (List.length trace) proc lbl self st ks og ot) :: bad end in
                   match ot with
-                  | OCommit g l _ => walk n' W focus (apply_commit st self g l) rnd3 (key :: trace) bad'
-                  | _ => walk n' W focus st rnd3 trace bad'
+                  | OCommit g l _ => walk n' W focus (apply_commit st self g l) rnd3 (ent :: trace) bad'
+                  | _ => walk n' W focus st rnd3 (("~" ++ ent) :: trace) bad'
                   end
               end
           | _ => walk n' W focus st rnd3 trace bad
@@ -172,8 +173,44 @@ Definition replay_case (W : wsys) (proc lbl : string) (self : value) (st : gstat
       match lookup lbl table with
       | Some (gt, tt0) =>
           let r := env_of W st self in
-          describe proc lbl self st ks (run (w_dgo W) EVAL_FUEL gt r ks) (run (w_dtla W) EVAL_FUEL tt0 r ks)
+          describe O proc lbl self st ks (run (w_dgo W) EVAL_FUEL gt r ks) (run (w_dtla W) EVAL_FUEL tt0 r ks)
       | None => "#@#WALKERROR no such label #@#END"
       end
   | None => "#@#WALKERROR no such process #@#END"
   end.
+
+(* ------------------------------------------------------------------ validation against the real generated Go
+   (harness/cmd/c02: the real critical sections under the real Run loop, stepped through the fairness-counter gate).
+   One observed attempt: process/label/self, the spec state before, the dictated choices, what the real code did
+   (commit | abort | error:<..> | done) and the spec state after. The Go model must predict exactly that. *)
+Definition gstate_eqb (a b : gstate) : bool :=
+  Nat.eqb (List.length a) (List.length b) &&
+  forallb (fun xv => match lookup (fst xv) b with Some w => veqb (snd xv) w | None => false end) a.
+
+Definition prefix (p s : string) : bool := String.eqb (substring 0 (String.length p) s) p.
+
+Definition real_step_ok_with (use_tla : bool) (W : wsys) (proc lbl : string) (self : value) (st : gstate) (ks : list nat)
+           (kind : string) (post : gstate) : string :=
+  if String.eqb kind "done" || String.eqb kind "finished" then ""
+  else
+  match lookup proc (w_procs W) with
+  | None => "no such process in the model: " ++ proc
+  | Some (_, table) =>
+      match lookup lbl table with
+      | None => "no such label in the model: " ++ lbl
+      | Some (gt, tt0) =>
+          let og := if use_tla then run (w_dtla W) EVAL_FUEL tt0 (env_of W st self) ks
+                    else run (w_dgo W) EVAL_FUEL gt (env_of W st self) ks in
+          let bad := "#@#REAL process=" ++ proc ++ " #@#label=" ++ lbl ++ " #@#self=" ++ show_value self ++
+                     " #@#choices=" ++ show_nats ks ++ " #@#state=" ++ show_vstore st ++ " #@#real=" ++ kind ++
+                     " -> " ++ show_vstore post ++ " #@#gomodel=" ++ show_outcome og ++ " #@#END" in
+          match og with
+          | OCommit g l _ => if String.eqb kind "commit" && gstate_eqb (apply_commit st self g l) post then "" else bad
+          | OAbort => if String.eqb kind "abort" then "" else bad
+          | OAssert => if prefix "error:" kind then "" else bad
+          | _ => bad
+          end
+      end
+  end.
+
+Definition real_step_ok := real_step_ok_with false.
